@@ -139,7 +139,7 @@ Theorem C03_assign_qk_step : forall q blanks AND s l qs nm key e,
   Assign.comparable cur y = true ->
   snd r = Assign.vote qs true cur y /\
   (Assign.write qs true cur y = true -> dget (x mx (fst r)) nm key = Some (nvalue blanks s l e)) /\
-  (Assign.write qs true cur y = false -> fst r = s) /\
+  (Assign.write qs true cur y = false -> fst r = with_mx s (ensure_key (x mx s) nm key)) /\
   (forall key', key <> key' -> dget (x mx (fst r)) nm key' = dget (x mx s) nm key') /\
   (forall nm' key', nm <> nm' -> dget (x mx (fst r)) nm' key' = dget (x mx s) nm' key') /\
   vars (x mx (fst r)) = vars (x mx s).
